@@ -13,7 +13,7 @@ import sessioncheck
 import world
 
 INFO = {
-    'proof_files': ['Proofs/RunnerProofs.v', 'Proofs/SessionProofs.v'],
+    'proof_files': ['Proofs/RunnerProofs.v', 'Proofs/SessionProofs.v', 'Proofs/Utf8ProofsA.v', 'Proofs/Utf8ProofsB.v'],
     'assumptions': [
         'PARTIAL: what a Gallina model can carry is proved (the program is started with argv verbatim, WAYLAND_DEBUG=1, LD_LIBRARY_PATH rule, other variables untouched, stdout inherited; line reassembly is independent of write chunking and loses no byte; the display is the same fold of the same lines in all three modes; exit status = child\'s once the prompt loop ended)',
         'runtime behaviour outside the model, covered by exploration only: CPython TextIOWrapper line reassembly on a real pipe, OS pipe buffering, thread scheduling/join in run_program, process exit codes, real stdout buffering - exercised by running main.py as a process in the three modes on generated schedules',
@@ -27,7 +27,7 @@ json.dump({"argv": sys.argv[1:], "env": {k: os.environ.get(k) for k in ("WAYLAND
 sys.stdout.write("MARKER-ON-STDOUT\n"); sys.stdout.flush()
 fd = 2
 for chunk, delay in sched["chunks"]:
-    os.write(fd, chunk.encode("utf-8"))
+    os.write(fd, bytes.fromhex(chunk))
     if delay:
         time.sleep(delay)
 sys.exit(sched["status"])
@@ -49,18 +49,24 @@ def make_stream(rnd):
 
 
 def chunkings(rnd, text):
-    if not text:
+    """cut the BYTES of the stream (so a multi-byte character can be split across two writes)"""
+    data = text.encode('utf-8')
+    if not data:
         return [['', 0]]
     r = rnd.random()
     if r < 0.2:
-        return [[text, 0]]
-    cuts = sorted(set(rnd.randrange(1, len(text)) for _ in range(rnd.choice([1, 3, 8])))) if len(text) > 1 else []
+        return [[data.hex(), 0]]
+    cuts = sorted(set(rnd.randrange(1, len(data)) for _ in range(rnd.choice([1, 3, 8])))) if len(data) > 1 else []
     if r < 0.4:
-        cuts = list(range(1, min(len(text), 40)))        # byte by byte at the start
+        cuts = list(range(1, min(len(data), 40)))        # byte by byte at the start
+    # cuts inside multi-byte characters, with a delay so that the reader really sees two reads
+    inside = [i for i in range(1, len(data)) if data[i] & 0xC0 == 0x80]
+    forced = set(rnd.sample(inside, min(len(inside), 3))) if inside and rnd.random() < 0.7 else set()
+    cuts = sorted(set(cuts) | forced)
     parts = []
     prev = 0
-    for c in cuts + [len(text)]:
-        parts.append([text[prev:c], rnd.choice([0, 0, 0, 0.001, 0.01])])
+    for c in cuts + [len(data)]:
+        parts.append([data[prev:c].hex(), 0.02 if c in forced else rnd.choice([0, 0, 0, 0.001, 0.01])])
         prev = c
     return parts
 
@@ -164,6 +170,7 @@ def run(res):
         res.count('status:%d' % status)
     res.sample({'stream_head': text[:200], 'chunks': len(sched['chunks']), 'status': status})
     stdin_eof(res, work)
+    utf8_correspondence(res)
     res.rule = ('generated streams (messages + chatter, with and without final newline) written by a helper in 1..n chunks with delays (incl. byte-by-byte and mid-line splits), '
                 'exit statuses %s, forwarded words that look like our options, wayland-debug itself started with WAYLAND_DEBUG unset/1/0/empty/server/client, with and without LD_LIBRARY_PATH and --libwayland DIR; each run under -l, -p and -r; non-trivial = all three modes agree and run mode is transparent; distinct by (stream, chunking)'
                 % ('0,1,2,7,255' if res.tier == 'quick' else '0..255'))
@@ -171,9 +178,28 @@ def run(res):
     shutil.rmtree(work, ignore_errors=True)
 
 
+def utf8_correspondence(res):
+    """Model/Utf8.v (the incremental UTF-8 decoder with errors='replace' that the pipe is read through) against CPython's
+    bytes.decode and codecs incremental decoder: per-call text, pending bytes, final output, on valid, invalid and chunked bytes."""
+    n = 1500 if res.tier == 'quick' else 20000
+    here = os.path.join(os.path.dirname(os.path.dirname(os.path.abspath(__file__))), 'utf8_corr.py')
+    try:
+        p = subprocess.run([sys.executable, '-B', here, '--n', str(n), '--seed', str(res.seed)], capture_output=True, text=True, timeout=1800,
+                           env=dict(os.environ, PYTHONPATH=common.REPO + ':' + os.path.dirname(os.path.dirname(os.path.abspath(__file__)))))
+    except Exception as e:
+        res.disagree('utf8 correspondence could not run', None, None, repr(e), sig={'category': 'harness'})
+        return
+    tail = (p.stdout + p.stderr)[-1500:]
+    if p.returncode == 0:
+        res.evaluations += n
+        res.extra['utf8_model_vs_cpython'] = tail.strip().split('\n')[-1]
+    else:
+        res.disagree('the UTF-8 decoder model differs from CPython', None, None, tail, sig={'category': 'utf8-model'}, theorem='C13_decode_chunks_concat')
+
+
 def stdin_eof(res, work):
     """run mode with standard input at end-of-file (non-interactive use): the exit status must still be the program's"""
-    sched = {'chunks': [['[1.000] wl_display@1.sync(new id wl_callback@2)\n', 0]], 'status': 3}
+    sched = {'chunks': [['[1.000] wl_display@1.sync(new id wl_callback@2)\n'.encode().hex(), 0]], 'status': 3}
     sp = os.path.join(work, 'sched.json')
     json.dump(sched, open(sp, 'w'))
     hp = os.path.join(work, 'helper.py')
